@@ -1,4 +1,134 @@
-import AwModel.Store.Migrate
-/-! # C14 — placeholder while the theorem is being written (no claims yet) -/
+import AwProofs.Lemmas.Migrate
+/-!
+# C14 — Migrating a legacy database to the SQLite store loses nothing
+
+Property theorems only (proofs: `Lemmas/Migrate.lean`, by induction over the legacy bucket table on
+top of the refinement lemmas of the two storage models). `old` is any legacy (peewee v2) database
+satisfying the invariant of that store — any number of buckets and events, any bucket ids (Lean
+`String`s are unicode), any metadata incl. the data dict, any payloads `D`; events read from the
+legacy store always carry ids, which the migration drops. The migration itself does not depend on
+the profile (`testing` only selects the two file names); the profile enters through `trigger_iff`.
+
+`noId e = { e with id := none }`: an event as (instant, duration, data). "None dropped, none
+duplicated" is `List.Perm` of the id-less event lists: equality as multisets.
+-/
 namespace AwProofs.C14
+open Aw Aw.Store
+open Aw.Store.Migrate (noId)
+variable {D : Type}
+
+/-- the migration of a consistent legacy database into the freshly created (empty) SQLite store
+    never fails, and leaves a consistent store -/
+theorem migration_succeeds {old : Peewee.St D} (h : Peewee.Inv old) :
+    ∃ s', Migrate.migrate old ({} : Sqlite.St D) = .ok s' ∧ Sqlite.Inv s' := by
+  obtain ⟨s', hs', hI', _⟩ := Migrate.migrate_spec h
+  exact ⟨s', hs', hI'⟩
+
+/-- nothing is lost, nothing is invented: the new store has exactly the legacy buckets, each with
+    the same metadata and, as a multiset of (instant, duration, data), the same events -/
+theorem migration_preserves {old : Peewee.St D} {s' : Sqlite.St D} (h : Peewee.Inv old)
+    (hm : Migrate.migrate old {} = .ok s') :
+    ∀ b, (Peewee.view old b = none → Sqlite.view s' b = none) ∧
+      (∀ m es, Peewee.view old b = some (m, es) →
+        ∃ es', Sqlite.view s' b = some (m, es') ∧ (es'.map noId).Perm (es.map noId)) := by
+  obtain ⟨s'', hs'', _, hall⟩ := Migrate.migrate_spec h
+  rw [hm] at hs''
+  injection hs'' with e
+  exact e ▸ hall
+
+/-- consequences of the multiset equality spelled out: as many events as before; every legacy
+    event has a counterpart with the same instant, duration and data, and conversely -/
+theorem migration_count_and_members {old : Peewee.St D} {s' : Sqlite.St D} (h : Peewee.Inv old)
+    (hm : Migrate.migrate old {} = .ok s') {b : String} {m : Meta} {es : List (Ev D)}
+    (hv : Peewee.view old b = some (m, es)) :
+    ∃ es', Sqlite.view s' b = some (m, es') ∧ es'.length = es.length ∧
+      (∀ e ∈ es, ∃ e' ∈ es', e'.ts = e.ts ∧ e'.dur = e.dur ∧ e'.data = e.data) ∧
+      (∀ e' ∈ es', ∃ e ∈ es, e.ts = e'.ts ∧ e.dur = e'.dur ∧ e.data = e'.data) := by
+  obtain ⟨es', hv', hp⟩ := (migration_preserves h hm b).2 m es hv
+  refine ⟨es', hv', by simpa using hp.length_eq, ?_, ?_⟩
+  · intro e he
+    obtain ⟨e', he', heq⟩ := List.mem_map.mp (hp.mem_iff.mpr (List.mem_map_of_mem (f := noId) he))
+    exact ⟨e', he', (Migrate.noId_eq_iff e' e).mp heq⟩
+  · intro e' he'
+    obtain ⟨e, he, heq⟩ := List.mem_map.mp (hp.mem_iff.mp (List.mem_map_of_mem (f := noId) he'))
+    exact ⟨e, he, (Migrate.noId_eq_iff e e').mp heq⟩
+
+/-- every migrated event has an id, and the new ids of a bucket are pairwise distinct -/
+theorem migration_ids_distinct {old : Peewee.St D} {s' : Sqlite.St D} (h : Peewee.Inv old)
+    (hm : Migrate.migrate old {} = .ok s') {b : String} {m : Meta} {es' : List (Ev D)}
+    (hv : Sqlite.view s' b = some (m, es')) :
+    (es'.filterMap (·.id)).Nodup ∧ ∀ x ∈ es', x.id.isSome := by
+  obtain ⟨s'', hs'', hI, _⟩ := Migrate.migrate_spec h
+  rw [hm] at hs''
+  injection hs'' with e
+  exact Sqlite.ids_nodup (e ▸ hI) hv
+
+/-- the legacy database is only read: `migrate` is a pure function `Peewee.St D → Sqlite.St D → …`
+    whose result contains no legacy state — there is no "legacy database afterwards" other than
+    `old` itself, and running the migration twice from the same inputs gives the same result.
+    (That the legacy *file* is byte-for-byte untouched is observed by the correspondence check on
+    the real code; files are not modelled.) -/
+theorem old_unchanged (old : Peewee.St D) (new : Sqlite.St D) (r₁ r₂ : Except Err (Sqlite.St D))
+    (h₁ : Migrate.migrate old new = r₁) (h₂ : Migrate.migrate old new = r₂) : r₁ = r₂ :=
+  h₁.symm.trans h₂
+
+/-- the migration runs exactly when the default database file is new, no custom path was given,
+    and the data directory has a file whose first two dot-separated components are the legacy name
+    *of the same profile* (`peewee-sqlite` / `peewee-sqlite-testing`) and `v2` -/
+theorem trigger_iff (testing newDbFile customPath : Bool) (files : List String) :
+    Migrate.triggers testing newDbFile customPath files = true ↔
+      newDbFile = true ∧ customPath = false ∧
+        ∃ f ∈ files, ∃ n v rest, f.splitOn "." = n :: v :: rest ∧
+          n = Migrate.legacyName testing ∧ v = "v2" :=
+  Migrate.triggers_iff testing newDbFile customPath files
+
+/-! ## non-vacuity -/
+
+open Aw.Store.Migrate.Example in
+/-- the hypotheses hold of a concrete legacy database with three buckets (one empty, one with a
+    unicode id and a data dict) and five events, and the migration computes the expected store:
+    events in `get_events` order (newest first), fresh ids 1…5 -/
+example : Peewee.Inv old ∧ Migrate.migrate old {} = .ok new ∧
+    Sqlite.view new "a" = some (mA, [⟨some 1, 30, 1, 9⟩, ⟨some 2, 10, 5, 7⟩, ⟨some 3, 10, 5, 7⟩]) ∧
+    Sqlite.view new "bücket-ü" = some (mB, [⟨some 4, 10, 0, 8⟩, ⟨some 5, 5, 2, 8⟩]) ∧
+    Sqlite.view new "empty" = some (mA, []) ∧ Sqlite.view new "other" = none :=
+  ⟨old_inv, rfl, rfl, rfl, rfl, rfl⟩
+
+open Aw.Store.Migrate.Example in
+example := migration_succeeds old_inv
+open Aw.Store.Migrate.Example in
+example := migration_preserves (s' := new) old_inv rfl
+open Aw.Store.Migrate.Example in
+example := migration_count_and_members (s' := new) (b := "a") old_inv rfl rfl
+open Aw.Store.Migrate.Example in
+example := migration_ids_distinct (s' := new) (b := "a") old_inv rfl rfl
+
+open Aw.Store.Migrate.Example in
+/-- the freshness of the new store (`{}`: the migration runs only when the database file was just
+    created) is a real hypothesis: migrating into a store that already has the buckets fails on
+    the UNIQUE constraint -/
+example : Migrate.migrate old new = .error .integrity := rfl
+
+/-- the normal-profile legacy file triggers the migration of the normal profile … -/
+example : Migrate.triggers false true false ["aw-server.log", "peewee-sqlite.v2.db"] = true := by
+  simp only [Migrate.triggers, Migrate.isLegacyFile, List.any_cons, List.any_nil, Migrate.split_normal,
+    Migrate.split_log]
+  decide
+/-- … and not that of the testing profile -/
+example : Migrate.triggers true true false ["aw-server.log", "peewee-sqlite.v2.db"] = false := by
+  simp only [Migrate.triggers, Migrate.isLegacyFile, List.any_cons, List.any_nil, Migrate.split_normal,
+    Migrate.split_log]
+  decide
+/-- the testing-profile legacy file triggers the migration of the testing profile … -/
+example : Migrate.triggers true true false ["peewee-sqlite-testing.v2.db"] = true := by
+  simp only [Migrate.triggers, Migrate.isLegacyFile, List.any_cons, List.any_nil, Migrate.split_testing]
+  decide
+/-- … and not that of the normal profile -/
+example : Migrate.triggers false true false ["peewee-sqlite-testing.v2.db"] = false := by
+  simp only [Migrate.triggers, Migrate.isLegacyFile, List.any_cons, List.any_nil, Migrate.split_testing]
+  decide
+/-- an existing new database file, or a custom path, suppresses it -/
+example : Migrate.triggers false false false ["peewee-sqlite.v2.db"] = false := rfl
+example : Migrate.triggers false true true ["peewee-sqlite.v2.db"] = false := rfl
+
 end AwProofs.C14
